@@ -21,6 +21,7 @@ def run(ctx: Ctx):
     SC.mode_table(ctx, ["error_rate", "prefix_error_rates"], "S2")
     SC.equal_cost_shortcut(ctx, "S3")
     SC.batch_independence(ctx, "S5")
+    SC.empty_reference_convention(ctx, "S2")
     # ---- S4 minimum error rate loss ---------------------------------------------------------------------
     f = pkg.func("_string::minimum_error_rate_loss")
     where = f"{rel}::minimum_error_rate_loss"
@@ -92,6 +93,8 @@ def _mutants():
     from selftest.mutate import Mutant as M
     S = "_string.py"
     return [
+        M("empty-reference-scores-length", "_string.py", "er = torch.where(zero_mask, hyp_lens.gt(0).to(er.dtype), er)", "er = torch.where(zero_mask, hyp_lens.to(er.dtype), er)", "empty-reference-scores-0-or-1@final"),
+        M("empty-reference-prefix-scores-index", "_string.py", "torch.arange(prefix_ers.size(0), device=device).gt(0).to(row.dtype)", "torch.arange(prefix_ers.size(0), device=device).to(row.dtype)", "empty-reference-scores-0-or-1@prefix"),
         M("error-rate-no-mistakes", S, "return _string_matching(ref, hyp, eos, include_eos, batch_first, ins_cost, del_cost, sub_cost, warn, norm=norm, return_mistakes=True)",
           "return _string_matching(ref, hyp, eos, include_eos, batch_first, ins_cost, del_cost, sub_cost, warn, norm=norm)", "kernel-mode"),
         M("mult-always", S, "if not return_mistakes:\n            mult = ins_cost", "if True:\n            mult = ins_cost", "multiplier-only-for-distances"),
